@@ -277,7 +277,7 @@ def shrink_violation(prop, viol, rounds=12):
             break
         if not cands:
             break
-        impl, model, _ = core.run_both(prop.id, cands, prop.impl_argv, prop.model_argv, tag='shrink')
+        impl, model, _ = core.run_both(prop.id, cands, prop.impl_argv, prop.model_argv, tag='shrink', timeout=40)
         nxt = None
         for c, il, ml in zip(cands, impl, model):
             fs = evaluate_single(prop, c, il, ml)
